@@ -185,19 +185,18 @@ class NaiveForecaster(_OptionalForecastingHorizonMixin, _BaseWindowForecaster):
                 return np.repeat(np.nanmean(last_window), len(fh))
 
             else:
-                # if the window length is not a multiple of sp, we pad the
-                # window with nan values for easy computation of the mean
-                remainder = self.window_length_ % self.sp_
+                # if the number of observations in the window is not a multiple
+                # of sp, we pad the window with nan values at the front, so that
+                # the last column is the season of the cutoff
+                remainder = len(last_window) % self.sp_
                 if remainder > 0:
                     pad_width = self.sp_ - remainder
                 else:
                     pad_width = 0
-                last_window = np.hstack([last_window, np.full(pad_width, np.nan)])
+                last_window = np.hstack([np.full(pad_width, np.nan), last_window])
 
                 # reshape last window, one column per season
-                last_window = last_window.reshape(
-                    np.int(np.ceil(self.window_length_ / self.sp_)), self.sp_
-                )
+                last_window = last_window.reshape(-1, self.sp_)
 
                 # compute seasonal mean, averaging over rows
                 y_pred = np.nanmean(last_window, axis=0)
